@@ -5,10 +5,30 @@ CFG = {
     "drivers": ["C17"],
     "stateful": True,
     "trivial_prefix": ("-", "bad-op"),
-    "rule": "one case = one op sequence from a starting content; distinct by the whole sequence",
-    "trusted_base": [],
-    "level_text": "WIP",
-    "level_note": "WIP",
-    "assumptions": [],
+    "design_ref": "DESIGN.md §5 C17; notes/C17.md",
+    "technique": "Lean 4 refinement proof (simulation with abs s = (text, cursor), invariant cursor <= length) of executable models of "
+                 "vxfw/textfield.TextField and widgets/textinput.Model against the ideal editor Spec.Editor; differential correspondence "
+                 "on the exported API with Spec.Editor as oracle on the real widgets",
+    "rule": "one case = one op sequence from a starting content; TextField: key events through HandleEvent (23 keys incl. unbound, releases, "
+            "typed graphemes), InsertStringAtCursor/CursorTo/Delete*/Reset, Draw at widths 0..12; textinput: Update with keys, paste keys, "
+            "PasteEnd, release, SetContent, Draw at widths 1..12 with/without prompt. Bounded-exhaustive: all sequences of length 4 (quick) / "
+            "5 (thorough) over an 11-op alphabet per widget from 3 starting contents; random sequences up to 200 ops over 9 graphemes "
+            "(narrow, wide, multi-codepoint, ZWJ emoji, zero-width). Distinct by the whole sequence.",
+    "trusted_base": [
+        "Key.Matches / Key.String (C09's subject) are evaluated by the real code in the harness; the model receives the 8 binding verdicts "
+        "of HandleEvent in source order, resp. the msg.String() text",
+        "A-concat: Value is modelled as the list of its clusters; the harness alphabet is merge-free and every observed value is re-clustered "
+        "with uniseg (an unknown cluster would fail the comparison)",
+        "TextField.cursor is observed through Draw's Cursor.Col (exported API only); textinput's through CursorPosition(); drawn cursor of "
+        "textinput through the add-only hook VerifC17Cursor",
+    ],
+    "assumptions": ["graphemeCountInString(Value) = number of clusters (A-concat)", "uint cursor arithmetic does not wrap (guarded subtractions only)"],
+    "level_text": "Proved for all histories from any starting content: textfield_refines (+ invariant n = count, cursor <= length), "
+                  "textfield_callbacks_exact, textfield_cursor_column; textinput_refines (every Update/SetContent/Draw call returns - no index "
+                  "panic, no hang - and equals the ideal operation), draw_terminates. F46 and F47 were real violations, fixed in /repo.",
+    "level_note": "Validated by correspondence only: textinput's drawn cursor column (oracle applies while the text fits and offset = 0), the binding "
+                  "table itself (which key strings reach which arm: compared on 23 keys per widget, not extracted). Modelled, not verified: combining "
+                  "marks typed separately into TextField (cluster merge; cursor can exceed the count until the next clamp - see notes open items), "
+                  "textinput cell contents (truncator, invisibleChar).",
     "timeout": 1500,
 }
